@@ -357,5 +357,7 @@ def _real_code(run):
         "Read: whether an answer is given is pinned for plain file names of logs/ that are no symbolic links; for other names (slashes, dot segments) the answer may be nil or come from the file the name lexically resolves to inside logs/ (resolution as a path join does it); a name that lexically leaves logs/ must get no answer, whatever exists there; where the window lies is judged by ReadHonest only (contiguous slice at the reported offset, at most the requested length); `next` is not judged",
         "Read through symbolic links of logs/ (a linked file, a path through a linked directory): the statement speaks of paths, so whether such a name is served is left open; an answer must be an honest window of the file the path really leads to (the harness records where each link leads with filepath.EvalSymlinks). What lies above <home> is unknown to the specification: names that leave <home> and come back, the absolute path of a file inside logs/ and '..' after a linked segment are not generated",
         "concurrent bursts: the order of calls is the order of their lines in the files (each line carries goroutine and sequence number); calls that left no line are placed before the goroutine's next visible line; no wall-clock ordering across goroutines; a burst history that is rejected but does not reproduce is a machinery failure, not a violation",
+        "several loggers in one home: the harness makes them take turns (a Switch event names the logger the following events belong to; never inside a cycle); in a concurrent burst of two loggers on one file the calls are listed in the order the file gives them, with a Switch before a line of the other logger; lines of the external writer of a burst are ExtAppend events (data = the line as found)",
+        "environment faults are modelled as the code stands, not judged: a logger whose output file or whose logs directory was taken away (removed, moved, removed by another logger's retention) keeps its handle on the removed file and its lines are lost with it (LogVanish is enabled for a detached logger only) until the next cycle that finds the date or the rotation flag changed (or no handle): that cycle must make logs/ again if it is missing and open the file of the day; while a regular file stands where logs/ should be the open fails, the logger is down (no output file) and every later cycle retries; Read may make a missing logs/ (accepted either way). A read-only <home> is not generated (the harness runs as root, permissions do not bind it); removing <home> itself is not generated (the files beside logs/ that must never change would go with it)",
         "every regular file of the temporary tree outside <home>/logs (in <home>, in its sub-directories named like logs/, beside <home>) is listed after every action and must never change; symbolic links are generated inside logs/ only, never with the name of an own log file, and their targets never change (a link seen to lead elsewhere than before is a machinery failure)",
     ]
